@@ -107,9 +107,18 @@ def chk_jacobian(inp):
     return None
 
 
+_BASE = {}
+
+
 def make_sampler(n_rows, p, bound=None, misspec=False, seed=0):
     BSL, pm, _ = _mods()
-    me = BSL.__new__(BSL)
+    # a REAL object (every attribute BSL.__init__ sets, also those an edit adds), shallow-copied, with a constructed state
+    if 'base' not in _BASE:
+        elfi = native.import_elfi()
+        _BASE['base'] = elfi.BSL(_toy_model(elfi), 5, ['S1', 'S2'], seed=0)
+    import copy
+    me = copy.copy(_BASE['base'])
+    me.gamma_sampler_state = {}
     me.state = dict(n_samples=0, params=np.zeros((n_rows, p)), logprior=np.zeros(n_rows), logposterior=np.zeros(n_rows),
                     n_sim_round=0, n_sim=0, n_batches=0, round=0)
     me.objective = dict(round=n_rows, n_batches=n_rows)
@@ -135,19 +144,29 @@ def ratio_oracle(BSL, bound, th_new, th_cur, post_new, post_cur):
     return math.exp(min(700.0, max(-700.0, r)))
 
 
-def chk_mh_ratio(inp):
+def chk_mh_ratio(inp, via_propagate=False):
+    """_get_mh_ratio on a constructed state.  The state is first written directly (row n = the given proposal); if that call
+    raises, the same step is driven through the REAL call sequence (_propagate_state produces the proposal, as _init_round
+    does) - an implementation that keeps the proposal in an attribute of its own is reachable only that way."""
     BSL, _, _ = _mods()
     th_new, th_cur = inp['theta_new'], inp['theta_cur']
-    me = make_sampler(3, len(th_new), inp.get('bound'))
+    me = make_sampler(3, len(th_new), inp.get('bound'), seed=inp.get('seed', 0))
     me.state['n_samples'] = 1
-    me.state['params'][0], me.state['params'][1] = th_cur, th_new
+    me.state['params'][0] = th_cur
+    if via_propagate:
+        st, prop = _call(me._propagate_state)
+        if st != 'ok':
+            return '_propagate_state raised %s' % prop
+        th_new = np.asarray(prop, dtype=float).reshape(-1).tolist()
+    me.state['params'][1] = th_new
     me.state['logposterior'][0], me.state['logposterior'][1] = inp['post_cur'], inp['post_new']
     st, got = _call(me._get_mh_ratio)
     if st != 'ok':
-        return '_get_mh_ratio raised %s' % got
+        return chk_mh_ratio(inp, True) if not via_propagate else '_get_mh_ratio raised %s' % got
     want = ratio_oracle(BSL, inp.get('bound'), th_new, th_cur, inp['post_new'], inp['post_cur'])
     if not _close(math.log(float(got)), math.log(want), 1e-5):
-        return 'ratio = %.6g, posterior ratio x Jacobian ratio (at the transformed points) = %.6g' % (float(got), want)
+        return 'ratio = %.6g, posterior ratio x Jacobian ratio (at the transformed points) = %.6g%s' % (
+            float(got), want, ' (proposal %s drawn by _propagate_state)' % th_new if via_propagate else '')
     return None
 
 
@@ -227,24 +246,33 @@ def chk_wcon(inp):
     return None if _close(got, want, 1e-10) else 'wcon(%d, %d) = %.10g, log c(k, nu) = %.10g' % (k, nu, float(got), want)
 
 
-def chk_process(inp):
-    """one _process_simulated step on a constructed state: accept iff u < min(1, ratio); rejected state restored"""
+def chk_process(inp, via_propagate=False):
+    """one _process_simulated step on a constructed state: accept iff u < min(1, ratio); rejected state restored
+    (direct state first; if the call raises, through the real call sequence - see chk_mh_ratio)"""
     BSL, _, _ = _mods()
     th_new, th_cur = inp['theta_new'], inp['theta_cur']
     n = int(inp.get('n', 1))
     me = make_sampler(n + 2, len(th_new), inp.get('bound'), seed=inp.get('seed', 0))
     ll = float(inp['loglik'])
-    me.likelihood = lambda sim, obs, **kw: ll
+    me.likelihood = lambda sim, obs, **kw: np.array([ll])       # what gaussian_syn_likelihood returns: a shape-(1,) array
     if inp.get('sim_nonfinite'):
         me.simulated[0, 0] = INF
     st_ = me.state
     st_['n_samples'] = n
     if n >= 1:
         st_['params'][n - 1], st_['logprior'][n - 1], st_['logposterior'][n - 1] = th_cur, inp['lprior_cur'], inp['post_cur']
+    if via_propagate and n >= 1:
+        st, prop = _call(me._propagate_state)
+        if st != 'ok':
+            return '_propagate_state raised %s' % prop
+        th_new = np.asarray(prop, dtype=float).reshape(-1).tolist()
     st_['params'][n], st_['logprior'][n] = th_new, inp['lprior_new']
     before = {k: np.array(st_[k], copy=True) for k in ('params', 'logprior', 'logposterior')}
-    u = float(np.random.RandomState(inp.get('seed', 0)).uniform())
+    import copy
+    u = float(copy.deepcopy(me.random_state).uniform())          # the next uniform draw of the sampler's stream
     st, got = _call(me._process_simulated)
+    if st != 'ok' and not via_propagate and n >= 1:
+        return chk_process(inp, True)
     eff_ll = -INF if inp.get('sim_nonfinite') else ll
     if n == 0 and not math.isfinite(eff_ll):
         return None if (st == 'raise' and got.startswith('RuntimeError')) else 'non-finite likelihood on the initialisation round: %s %s' % (st, got)
@@ -287,7 +315,7 @@ def chk_init_round(inp):
         def logpdf(self, x):
             x = np.asarray(x, dtype=float).reshape(-1)
             calls.append(x.copy())
-            return 0.0 if (np.all(x > lo) and np.all(x < hi)) else -INF
+            return np.array([0.0 if (np.all(x > lo) and np.all(x < hi)) else -INF])     # ModelPrior.logpdf of a (1, d) point: shape (1,)
     me.prior = Prior()
     me.sigma_proposals = float(inp.get('sigma', 1.0)) * np.eye(p)
     st_ = me.state
@@ -354,7 +382,225 @@ def chk_propagate(inp):
     return None
 
 
-CHECKS = dict(propagate=chk_propagate, roundtrip=chk_roundtrip, jacobian=chk_jacobian, mh_ratio=chk_mh_ratio, likelihood=chk_likelihood, warton=chk_warton,
+# ------------------------------------------------------------------------------------------ end-to-end BSL.sample
+SUPPORT_LO, SUPPORT_W = np.array([-2.0, 0.2]), np.array([4.0, 3.0])
+Y_OBS = np.array([[0.3, -0.1, 0.5, 0.9, 0.2, 0.0, 0.4, 0.6]])
+
+
+def _toy_sim(t1, t2, batch_size=1, random_state=None):
+    rs = random_state or np.random
+    t1, t2 = np.asarray(t1, dtype=float).reshape(-1, 1), np.asarray(t2, dtype=float).reshape(-1, 1)
+    return t1 + 0.5 * np.abs(t2) * rs.randn(len(t1), 8)
+
+
+def _toy_s1(x):
+    return x.mean(axis=1)
+
+
+def _toy_s2(x):
+    return x.std(axis=1)
+
+
+def _toy_sim1(t1, batch_size=1, random_state=None):
+    return _toy_sim(t1, np.ones_like(np.asarray(t1, dtype=float)), batch_size, random_state)
+
+
+def _toy_model(elfi, dim=2):
+    m = elfi.ElfiModel()
+    t1 = elfi.Prior('uniform', SUPPORT_LO[0], SUPPORT_W[0], model=m, name='t1')
+    if dim == 1:
+        y = elfi.Simulator(_toy_sim1, t1, observed=Y_OBS, name='y')
+    else:
+        t2 = elfi.Prior('uniform', SUPPORT_LO[1], SUPPORT_W[1], model=m, name='t2')
+        y = elfi.Simulator(_toy_sim, t1, t2, observed=Y_OBS, name='y')
+    elfi.Summary(_toy_s1, y, name='S1')
+    elfi.Summary(_toy_s2, y, name='S2')
+    return m
+
+
+def _toy_logprior(x):
+    """independent oracle of the joint prior: product of the two uniforms"""
+    x = np.asarray(x, dtype=float).reshape(-1)
+    lo, w = SUPPORT_LO[:x.size], SUPPORT_W[:x.size]
+    if np.all(x >= lo) and np.all(x <= lo + w):
+        return float(-np.log(w).sum())
+    return -INF
+
+
+class _RSRec:
+    """RandomState that records the Gaussian proposal draws and the argument-free uniform draws (accept tests)"""
+
+    def __init__(self, rs, owner, events):
+        self._rs, self._owner, self._ev = rs, owner, events
+
+    def uniform(self, *a, **k):
+        v = self._rs.uniform(*a, **k)
+        if not a and not k:
+            self._ev.append(('u', float(v)))
+        return v
+
+    def multivariate_normal(self, mean, cov, *a, **k):
+        v = self._rs.multivariate_normal(mean, cov, *a, **k)
+        self._ev.append(('mvn', np.array(mean, dtype=float, copy=True), np.array(v, dtype=float, copy=True)))
+        return v
+
+    def __getattr__(self, k):
+        return getattr(self._rs, k)
+
+
+class _LikRec:
+    def __init__(self, f, events):
+        self._f, self._ev = f, events
+        self.keywords = getattr(f, 'keywords', {})
+        self.func = getattr(f, 'func', f)
+
+    def __call__(self, *a, **k):
+        v = self._f(*a, **k)
+        self._ev.append(('lik', v))
+        return v
+
+
+def _instrument_sampler(b, events):
+    """recording wrappers on ONE real BSL object (the real methods run; nothing is replaced)"""
+    from functools import partial
+    b.random_state = _RSRec(b.random_state, b, events)
+    lik = b.likelihood
+    if isinstance(lik, partial):
+        rec = _LikRec(lik, events)
+        b.likelihood = partial(lambda *a, **k: rec(*a, **k), **lik.keywords) if False else lik
+        # a partial must stay a partial (is_misspec / _resolve_gamma_sampler read .keywords): wrap the inner function
+        b.likelihood = partial(_LikRec(lik.func, events), *lik.args, **lik.keywords)
+    else:
+        b.likelihood = _LikRec(lik, events)
+    orig_ps, orig_rg = b._process_simulated, b._resolve_gamma_sampler
+
+    def ps():
+        n = b.state['n_samples']
+        events.append(('ps_begin', n))
+        orig_ps()
+        events.append(('ps_end', n, np.array(b.state['params'][n], copy=True)))
+    b._process_simulated = ps
+
+    def rg(*a, **k):
+        sampler, g0 = orig_rg(*a, **k)
+
+        def gs(*a2, **k2):
+            g, ll = sampler(*a2, **k2)
+            events.append(('gamma', float(np.squeeze(ll))))
+            return g, ll
+        return gs, g0
+    b._resolve_gamma_sampler = rg
+
+
+def _verify_chain(BSL, b, events, run, bound):
+    """re-derive the whole chain from the recorded draws / likelihood values with the stated rule -> None | what"""
+    bd = None if bound is None else np.array(bound, dtype=float)
+    fwd = (lambda x: np.asarray(BSL._para_logit_transform(np.asarray(x, dtype=float), bd), dtype=float)) if bd is not None else (lambda x: np.asarray(x, dtype=float))
+    back = (lambda y: np.asarray(BSL._para_logit_back_transform(np.asarray(y, dtype=float), bd), dtype=float)) if bd is not None else (lambda y: np.asarray(y, dtype=float))
+    P, Q = np.asarray(b.state['params'], dtype=float), np.asarray(b.state['logposterior'], dtype=float)
+    cur, post_cur, pending, n = P[0].copy(), None, None, 0
+    if run.get('params0') is not None and not np.allclose(cur, run['params0']):
+        return 'chain starts at %s, params0 = %s' % (cur.tolist(), run['params0'])
+    chain_p, chain_q, in_ps, liks, us, decided = [], [], False, [], [], 0
+    for ev in events:
+        k = ev[0]
+        if k == 'ps_begin':
+            in_ps, liks, us = True, [], []
+        elif k == 'lik' and in_ps:
+            liks.append(float(np.squeeze(np.asarray(ev[1], dtype=float))))
+        elif k == 'u' and in_ps:
+            us.append(ev[1])
+        elif k == 'u':
+            return 'a uniform accept draw outside _process_simulated'
+        elif k == 'gamma':
+            post_cur = ev[1] + _toy_logprior(cur)
+            if chain_q:
+                chain_q[-1] = post_cur
+        elif k == 'mvn':
+            if pending is not None:
+                return 'a new proposal is drawn while the proposal %s has not been processed' % pending.tolist()
+            if not np.allclose(ev[1], fwd(cur), rtol=1e-9, atol=1e-12):
+                return 'iteration %d: proposal centred at %s but the current state %s transforms to %s' % (n, ev[1].tolist(), cur.tolist(), fwd(cur).tolist())
+            prop = back(ev[2])
+            if _toy_logprior(prop) == -INF:
+                chain_p.append(cur.copy()); chain_q.append(post_cur); n += 1       # rejected without simulating
+            else:
+                pending = prop
+        elif k == 'ps_end':
+            in_ps = False
+            if len(liks) != 1:
+                return 'iteration %d: %d likelihood evaluations in one round' % (n, len(liks))
+            if n == 0:
+                if us:
+                    return 'a uniform draw on the initialisation round'
+                post_cur = liks[0] + _toy_logprior(cur)
+                chain_p.append(cur.copy()); chain_q.append(post_cur); n = 1
+                continue
+            if pending is None:
+                return 'iteration %d: a round was simulated without a pending proposal inside the prior support' % n
+            if len(us) != 1:
+                return 'iteration %d: %d uniform draws for one accept test' % (n, len(us))
+            post_new = liks[0] + _toy_logprior(pending)
+            if math.isfinite(post_new):
+                prob = min(1.0, ratio_oracle(BSL, bound, pending, cur, post_new, post_cur))
+            else:
+                prob = 0.0
+            actual = bool(np.allclose(ev[2], pending, rtol=1e-12, atol=0) and not np.allclose(pending, cur, rtol=1e-12, atol=0))
+            if abs(us[0] - prob) > 1e-4 * max(prob, 1e-12) + 1e-12:
+                stated = us[0] < prob
+                decided += 1
+                if stated != actual:
+                    return 'iteration %d: u = %.6g, min(1, posterior ratio x Jacobian ratio) = %.6g: stated %s, sampler %s (proposal %s, current %s)' % (
+                        n, us[0], prob, 'accept' if stated else 'reject', 'accepted' if actual else 'rejected', pending.tolist(), cur.tolist())
+            if actual:
+                cur, post_cur = pending.copy(), post_new
+            chain_p.append(cur.copy()); chain_q.append(post_cur); n += 1
+            pending = None
+    if n != run['n'] or b.state['n_samples'] != run['n']:
+        return 'chain length %d (state n_samples %r), %d requested' % (n, b.state['n_samples'], run['n'])
+    if not np.allclose(P[:n], np.array(chain_p), rtol=1e-10, atol=1e-12):
+        k = int(np.argmax(np.abs(P[:n] - np.array(chain_p)).sum(axis=1) > 0))
+        return 'row %d of the chain is %s, the stated rule gives %s' % (k, P[k].tolist(), chain_p[k].tolist())
+    if not np.allclose(Q[:n], np.array(chain_q, dtype=float), rtol=1e-8, atol=1e-10, equal_nan=True):
+        k = int(np.argmax(~np.isclose(Q[:n], np.array(chain_q, dtype=float), rtol=1e-8, atol=1e-10)))
+        return 'log-posterior of row %d is %.8g, recomputed %.8g' % (k, Q[k], chain_q[k])
+    run['_decided'] = decided
+    return None
+
+
+def chk_sample(inp):
+    """real BSL.sample on a two-parameter toy model; one or more consecutive sample() calls on ONE object"""
+    BSL, pm, _ = _mods()
+    elfi = native.import_elfi()
+    lik = dict(standard=pm.standard_likelihood, unbiased=pm.unbiased_likelihood, rbslm=lambda: pm.robust_likelihood('mean'),
+               rbslv=lambda: pm.robust_likelihood('variance'))[inp['likelihood']]()
+    try:
+        with native.time_limit(120):
+            dim = int(inp.get('dim', 2))
+            b = elfi.BSL(_toy_model(elfi, dim), int(inp['n_sim_round']), ['S1', 'S2'], likelihood=lik, seed=int(inp.get('seed', 1)))
+            events = []
+            _instrument_sampler(b, events)
+            for k, run in enumerate(inp['runs']):
+                del events[:]
+                try:
+                    b.sample(int(run['n']), sigma_proposals=float(run.get('sigma', 0.05)) * np.eye(dim),
+                             params0=(None if run.get('params0') is None else np.array(run['params0'], dtype=float)),
+                             logit_transform_bound=run.get('bound'), bar=False)
+                except native.NativeTimeout:
+                    raise
+                except Exception as e:
+                    import traceback
+                    where = [l.strip() for l in traceback.format_exc().splitlines() if 'bsl.py' in l]
+                    return 'sample() call %d raised %s: %s%s' % (k + 1, type(e).__name__, str(e)[:100], (' at ' + where[-1].split(', in ')[-1]) if where else '')
+                what = _verify_chain(BSL, b, list(events), run, run.get('bound'))
+                if what:
+                    return 'sample() call %d, %s' % (k + 1, what)
+    except native.NativeTimeout as e:
+        return 'BSL.sample: %s' % e
+    return None
+
+
+CHECKS = dict(sample=chk_sample, propagate=chk_propagate, roundtrip=chk_roundtrip, jacobian=chk_jacobian, mh_ratio=chk_mh_ratio, likelihood=chk_likelihood, warton=chk_warton,
               wcon=chk_wcon, process=chk_process, init_round=chk_init_round)
 
 
@@ -416,6 +662,22 @@ def gen_cases(tier, seed):
         yield 'init_round', dict(kind='init_round', bound=None, theta_cur=[0.0] * p, support_lo=[-0.4] * p, support_hi=[0.4] * p, sigma=float(rs.uniform(0.3, 3)),
                                  chain_len=int(rs.randint(3, 7)), n0=int(rs.randint(1, 3)), seed=int(rs.randint(1000))), True
     yield 'init_round', dict(kind='init_round', bound=[[-1.0, 1.0]], theta_cur=[0.2], support_lo=[-0.5], support_hi=[0.5], sigma=4.0, chain_len=6, n0=1, seed=3), True
+    # end-to-end sampler runs (one object; the last two are HISTORIES: a second sample() call with another start / other bounds)
+    B1, B2 = [[-2.0, 2.0], [0.2, 3.2]], [[-3.0, 5.0], [0.0, 4.0]]
+    for likn, nsim in (('standard', 60), ('unbiased', 200), ('rbslm', 60), ('rbslv', 60)):
+        nn = int(rs.randint(10, 16)) if tier == 'quick' else int(rs.randint(20, 31))
+        yield 'sample', dict(kind='sample', likelihood=likn, n_sim_round=nsim, seed=int(rs.randint(1000)),
+                             runs=[dict(n=nn, params0=[0.5, 1.0], bound=None, sigma=0.8)]), True
+        yield 'sample', dict(kind='sample', likelihood=likn, n_sim_round=nsim, seed=int(rs.randint(1000)),
+                             runs=[dict(n=nn, params0=[0.5, 1.0], bound=B1, sigma=0.3)]), True
+    yield 'sample', dict(kind='sample', likelihood='standard', n_sim_round=60, seed=7, runs=[dict(n=10, params0=None, bound=None, sigma=0.3)]), True
+    yield 'sample', dict(kind='sample', likelihood='standard', n_sim_round=60, seed=5, dim=1, runs=[dict(n=10, params0=[0.5], bound=None, sigma=0.8)]), True
+    yield 'sample', dict(kind='sample', likelihood='standard', n_sim_round=60, seed=6, dim=1, runs=[dict(n=10, params0=None, bound=[[-2.0, 2.0]], sigma=0.3)]), True
+    yield 'sample', dict(kind='sample', likelihood='standard', n_sim_round=60, seed=11,
+                         runs=[dict(n=10, params0=[0.5, 1.0], bound=B1, sigma=0.3), dict(n=10, params0=[-1.0, 2.5], bound=B2, sigma=0.3),
+                               dict(n=8, params0=[1.5, 0.6], bound=None, sigma=0.5)]), True
+    yield 'sample', dict(kind='sample', likelihood='rbslm', n_sim_round=60, seed=13,
+                         runs=[dict(n=10, params0=[0.5, 1.0], bound=B1, sigma=0.3), dict(n=10, params0=[-1.0, 2.5], bound=B1, sigma=0.3)]), True
     # likelihoods
     for d in (1, 2, 3):
         for _ in range(3 * k):
@@ -447,7 +709,7 @@ def gen_cases(tier, seed):
             yield 'wcon', dict(kind='wcon', k=kk, nu=nu), True
 
 
-SIG = {'propagate': 'c20:propagate', 'transform': 'c20:transform-roundtrip', 'jacobian': 'c20:jacobian', 'mh_ratio': 'c20:mh-ratio', 'process': 'c20:process-simulated',
+SIG = {'sample': 'c20:sample', 'propagate': 'c20:propagate', 'transform': 'c20:transform-roundtrip', 'jacobian': 'c20:jacobian', 'mh_ratio': 'c20:mh-ratio', 'process': 'c20:process-simulated',
        'init_round': 'c20:init-round', 'cov_warton': 'c20:cov-warton', 'wcon': 'c20:wcon'}
 
 
@@ -468,6 +730,12 @@ def run(tier='quick', seed=0):
                     sig += ':psi-not-positive-definite' if 'stated formula = -inf' in what else ':offset'
             elif inp['kind'] == 'process' and 'NINF' in what:
                 sig += ':np.NINF'
+            elif inp['kind'] == 'sample':
+                sig += ':raises-' + what.split(' raised ')[1].split(':')[0] + (':params0=None' if inp['runs'][0].get('params0') is None else '') + \
+                    (':p=1' if inp.get('dim') == 1 else '') if ' raised ' in what else \
+                    (':later-call' if not what.startswith('sample() call 1,') else ':decision')
+            if 'setting an array element' in what and inp['kind'] != 'sample':
+                sig += ':array-into-scalar-slot'
             elif 'types' in inp and name in ('jacobian', 'mh_ratio', 'process'):
                 sig += ':upper-only' if 1 in inp['types'] else ':other'
             if sig not in g['_seen']:
